@@ -293,6 +293,10 @@ func init() {
 			r.Try(func() { ruleTracking(w, r, "R01.8", "", "") })
 			r.Rule("R01.9", 5, "exactly its outputs are what is resolved: createInstance calls the descriptor's own constructor and answers instance registrations with the descriptor's own instance")
 			r.Try(func() { ruleFunctionIdentity(w, r, "R01.9") })
+			r.Rule("R01.13", 3, "descriptors are immutable once registered: no instance or per-provider state lives on a Descriptor (it is shared by every provider built from the collection)")
+			r.Try(func() { ruleDescriptorImmutable(w, r, "R01.13") })
+			r.Rule("R01.14", 1, "the descriptors derived for one constructor are registered all or none (a partly registered family makes the constructor run for the part and store the rest over other registrations)")
+			r.Try(func() { ruleFamilyRegisteredWhole(w, r, "R01.14") })
 			r.Rule("R01.10", 1, "only scoped result-less registrations enter the list of per-scope initializers (a singleton initializer in it would run again for every scope)")
 			r.Try(func() { ruleInitializerListMembership(w, r, "R01.10") })
 		})
@@ -317,7 +321,7 @@ func init() {
 			r.Try(func() { ruleInitializersOnce(w, r, "R02.6") })
 			r.Try(func() { ruleEntryPointsStoreNothing(w, r, "R02.7") })
 			sub := NewReport(r.Prop, r.Tier, w)
-			for _, id := range []string{"R07.1", "R07.2", "R07.3", "R07.4", "R07.5", "R07.6", "R07.7", "R07.8"} {
+			for _, id := range []string{"R07.1", "R07.2", "R07.3", "R07.4", "R07.5", "R07.6", "R07.7", "R07.8", "R07.9"} {
 				sub.Rule(id, 0, "")
 			}
 			r.Try(func() { checkC07(w, sub) })
@@ -330,6 +334,10 @@ func init() {
 			r.Try(func() { ruleAtomicRMW(w, r, "R02.10", la) })
 			r.Rule("R02.11", 1, "a failed construction leaves no trace and may be retried: no error exit of resolve is reachable with state recorded by resolve or its helpers and not retired")
 			r.Try(func() { ruleResolveWritesNothing(w, r, "R02.11") })
+			r.Rule("R02.16", 2, "a resolution runs on the caller's goroutine: the container starts no goroutine other than the per-scope context watchers (a construction the caller gave up on would still fill the cache later)")
+			r.Try(func() { reexport(w, r, "R02.16", func(sub *Report) { checkGoStatements(w, sub) }, "R09.4") })
+			r.Rule("R02.17", 2, "every output of a constructor call is stored whatever its value: the fan-out loops skip no output because of what was produced (an unstored output is constructed again and its siblings are overwritten)")
+			r.Try(func() { ruleFanOut(w, r, "R02.17") })
 			r.Rule("R02.15", 2, "the tables that hold instances are keyed by service type, key and group")
 			r.Try(func() { ruleInstanceTableKeyType(w, r, "R02.15") })
 			r.Rule("R02.12", 5, "initializers and constructors are never identified by their code pointer alone (closures of one literal share it: de-duplicating by it makes all but one of them run zero times)")
@@ -366,6 +374,8 @@ func init() {
 			r.Try(func() { ruleFamilyCopies(w, r, "R03.6") })
 			r.Rule("R03.8", 1, "a group is resolved member by member in every call: GetGroup returns only lists it assembled from its own resolutions")
 			r.Try(func() { ruleGroupResolvedPerCall(w, r, "R03.8") })
+			r.Rule("R03.9", 2, "one argument resolution per constructor call: no call site between createInstance and reflect.Value.Call is repeated by a loop that does not resolve the arguments again")
+			r.Try(func() { ruleNoRepeatedConstructorCall(w, r, "R03.9") })
 			r.Rule("R03.7", 1, "no recycled storage on the resolution path (no sync.Pool)")
 			r.Try(func() { ruleNoPooledInvocationState(w, r, "R03.7") })
 		})
@@ -394,6 +404,10 @@ func init() {
 			r.Try(func() { ruleIdentityComparisons(w, r, "R04.13") })
 			r.Rule("R04.11", 2, "the tables that hold instances are keyed by service type, key and group (what is injected for one group is not another group's member)")
 			r.Try(func() { ruleInstanceTableKeyType(w, r, "R04.11") })
+			r.Rule("R04.15", 2, "the member list a provider injects for a group is the provider's own copy (a list that shares its backing array with the collection is rewritten by later registrations)")
+			r.Try(func() { reexport(w, r, "R04.15", func(sub *Report) { checkC17(w, sub) }, "R17.5") })
+			r.Rule("R04.16", 1, "no recycled storage on the resolution path (a pooled parameter object still carries the fields of the consumer it was built for)")
+			r.Try(func() { ruleNoPooledInvocationState(w, r, "R04.16") })
 			r.Rule("R04.9", 1, "a descriptor's Constructor is reflect.ValueOf of the value registered, never a value from the shared analysis cache")
 			r.Try(func() { ruleDescriptorConstructorSource(w, r, "R04.9") })
 			r.Rule("R04.10", 2, "the descriptor list keeps registration order (append, reset, order-preserving delete only)")
@@ -429,6 +443,8 @@ func init() {
 			r.Try(func() { ruleRemovalIdentity(w, r, "R05.9") })
 			r.Rule("R05.10", 1, "a descriptor's dependency list is the analyzer's list, unfiltered")
 			r.Try(func() { ruleDependenciesUnfiltered(w, r, "R05.10") })
+			r.Rule("R05.14", 1, "the cycle check sees the current registrations: whatever Build keeps on the collection is invalidated by every function that changes a registry view")
+			r.Try(func() { ruleBuildCachesInvalidated(w, r, "R05.14") })
 			r.Rule("R05.11", 1, "the edge table and the nodes' own dependency lists describe the same edges")
 			r.Try(func() { ruleEdgesAgreeWithNodeLists(w, r, "R05.11") })
 		})
@@ -461,6 +477,10 @@ func init() {
 			r.Try(func() { ruleDegreeCountsEveryEdge(w, r, "R06.7") })
 			r.Rule("R06.8", 1, "no slice stored in the graph's tables is rewritten in place")
 			r.Try(func() { ruleNoInPlaceReuse(w, r, "R06.8") })
+			r.Rule("R06.13", 1, "Build derives graph and order from the current registrations: whatever Build keeps on the collection is invalidated by every function that changes a registry view")
+			r.Try(func() { ruleBuildCachesInvalidated(w, r, "R06.13") })
+			r.Rule("R06.14", 1, "what a registration yields does not depend on what was registered before it: the descriptors derived for one constructor are registered all or none")
+			r.Try(func() { ruleFamilyRegisteredWhole(w, r, "R06.14") })
 			r.Rule("R06.9", 1, "the edge table and the nodes' own dependency lists describe the same edges")
 			r.Try(func() { ruleEdgesAgreeWithNodeLists(w, r, "R06.9") })
 		})
